@@ -128,3 +128,47 @@ func VX_C06_exp() {
 	}
 	vxCheckInt(r, err, want, "exp")
 }
+
+// operands are immutable values: no operation may change them (BigInt results that are
+// written into an operand's own big.Int would)
+func vxBinUnchanged(op func(a, b Value) (Value, Value), id string) {
+	a, b := vxElkInt("a"), vxElkInt("b")
+	A, _ := vxMath(a)
+	B, _ := vxMath(b)
+	op(a, b)
+	A2, _ := vxMath(a)
+	B2, _ := vxMath(b)
+	vxAssert(A2.Cmp(A) == 0 && B2.Cmp(B) == 0, id+"/operands-unchanged")
+}
+
+func VX_C06_immutable() {
+	vxMode("int")
+	switch vxSplit("op", 6) {
+	case 0:
+		vxBinUnchanged(AddVal, "add")
+	case 1:
+		vxBinUnchanged(SubtractVal, "sub")
+	case 2:
+		vxBinUnchanged(MultiplyVal, "mul")
+	case 3:
+		vxBinUnchanged(DivideVal, "div")
+	case 4:
+		vxBinUnchanged(ModuloVal, "mod")
+	case 5:
+		vxBinUnchanged(CompareVal, "cmp")
+	}
+}
+
+func VX_C06_parity() {
+	vxMode("int")
+	b := vxBig("a")
+	vxAssume(!b.IsInt64())
+	A := new(big.Int).Set(b)
+	a := ToElkBigInt(b)
+	even := a.IsEven()
+	A2 := new(big.Int).Set(a.ToGoBigInt())
+	vxAssert(A2.Cmp(A) == 0, "even/operand-unchanged")
+	vxAssert(even == (new(big.Int).Rem(A, big.NewInt(2)).Sign() == 0), "even/exact")
+	odd := ToElkBigInt(new(big.Int).Set(A)).IsOdd()
+	vxAssert(odd == !even, "odd/exact")
+}
